@@ -16,9 +16,10 @@ import time
 from pathlib import Path
 
 import common as C
+import gen_future
 
 PROPERTIES = ["C10"]
-PROPS = ["Nstd.Future.Props", "Nstd.Future.PropsSpawnFail", "Nstd.Future.PropsCall"]
+PROPS = ["Nstd.Future.Props", "Nstd.Future.PropsSpawnFail", "Nstd.Future.PropsCall", "Nstd.Future.PropsGen", "Nstd.Future.PropsRestart"]
 DRIVER = "drv_future"
 LEAN_TARGETS = PROPS + [DRIVER]
 MANIFEST = {
@@ -52,6 +53,34 @@ MANIFEST = {
         "design_ref": "DESIGN.md 3/C10",
     }
 }
+
+GEN_OUT = C.LEAN / "Nstd" / "Generated" / "FutureBody.lean"
+
+
+def translate(repo=None):
+    """(ok, message): push / pop / size / FastSignal::set,reset,wait / the two constructors / the conditions of ThreadPool::run of the
+    CURRENT src/Future.cpp -> lean/Nstd/Generated/FutureBody.lean (tools/gen_future.py); a shape outside the understood subset is refused"""
+    try:
+        return True, "src/Future.cpp translated: " + gen_future.generate(repo or C.REPO, GEN_OUT)
+    except gen_future.Refuse as e:
+        return False, "tools/gen_future.py refuses the current src/Future.cpp (broken tie): " + str(e)
+    except OSError as e:
+        return False, "tools/gen_future.py: " + str(e)
+
+
+def gen(ctx):
+    ok, msg = translate()
+    if ctx is not None:
+        ctx.cov.setdefault("translated", msg)
+        ctx.log("translator: " + msg)
+    return ok, msg
+
+
+def setup():
+    ok, msg = translate()
+    if not ok:
+        print("future translate:", msg)
+
 
 HSRC = ["future.cpp", "future/sched.cpp"]
 REPO_SRC = ["Signal.cpp", "Thread.cpp", "Mutex.cpp", "Time.cpp", "String.cpp", "Memory.cpp"]
@@ -713,7 +742,7 @@ ASSUMPTIONS = [
 
 def check(ctx):
     ctx.assumptions += ASSUMPTIONS
-    proof_ok = C.proof_stage(ctx, PROPS, [DRIVER], leanchecker=(ctx.tier == "thorough"))
+    proof_ok = C.proof_stage(ctx, PROPS, [DRIVER], gen=gen, leanchecker=(ctx.tier == "thorough"))
     exe = build(ctx)
     if exe is None or not C.driver_path(DRIVER).exists():
         return
